@@ -20,12 +20,19 @@ MonoFail(q, S) ==
     IF \A i \in 1..(Len(S) - 1) : (S[i][3] >= 0 /\ S[i + 1][3] >= 0) =>
           (IF HigherBetter(q) THEN S[i][3] <= S[i + 1][3] ELSE S[i][3] >= S[i + 1][3])
     THEN {} ELSE {"better_mark_scores_fewer_points"}
+\* optional spellings (decimal comma): a function may refuse them; an accepted one scores what the mark it spells
+\* scores - in particular never less than the next-worse mark does in its standard spelling
+Worse(q, s) == IF HigherBetter(q) THEN s[1] - 1 ELSE s[2] + 1
+OptFail(q, s) ==
+    IF s[3] = -1 THEN {}
+    ELSE SegFail(q, s) \cup (IF s[3] >= 0 /\ Worse(q, s) >= 0 /\ Ref(q, Worse(q, s)) > s[3] THEN {"better_mark_scores_fewer_points"} ELSE {})
 First(bad) == CHOOSE i \in bad : \A j \in bad : i <= j
 Viol(r) ==
     CASE r.k = "seg" ->
            IF ~Known(r.q) THEN <<IF \A i \in DOMAIN r.segs : r.segs[i][3] = -1 THEN {} ELSE {"scored_without_published_table"}, <<>>>>
-           ELSE LET bad == {i \in DOMAIN r.segs : SegFail(r.q, r.segs[i]) # {}} IN
-                <<UNION {SegFail(r.q, r.segs[i]) : i \in bad} \cup MonoFail(r.q, r.segs),
+           ELSE LET F(s) == IF "opt" \in DOMAIN r /\ r.opt THEN OptFail(r.q, s) ELSE SegFail(r.q, s)
+                    bad == {i \in DOMAIN r.segs : F(r.segs[i]) # {}} IN
+                <<UNION {F(r.segs[i]) : i \in bad} \cup MonoFail(r.q, r.segs),
                   IF bad = {} THEN <<>> ELSE r.segs[First(bad)]>>
       [] r.k = "hand" ->
            LET bad == {i \in DOMAIN r.segs : r.segs[i][3] >= 0 /\ r.segs[i][4] >= 0 /\ r.segs[i][3] > r.segs[i][4]} IN
